@@ -1,5 +1,81 @@
 import Bxh.Model.Mempool
+/-!
+# C18 — the pool batches each account's transactions in gap-free nonce order, once
+Theorems about `generateBlock` / `genStep` / `drainSkipped` of `Bxh.Mempool`
+(model of `mempoolImpl.generateBlock`).
+-/
 namespace Bxh.Props.C18
 open Bxh Bxh.Mempool
-theorem placeholder_true : True := trivial
+
+/-- invariant of the batch-building loop: never more than `limit` entries, and the iteration is
+stopped as soon as `limit` is reached -/
+def Inv (limit : Nat) (acc : GenAcc) : Prop :=
+  acc.result.length ≤ limit ∧ (acc.stop = false → acc.result.length < limit)
+
+theorem addPtr_inv (limit : Nat) (acc : GenAcc) (ptr : Ptr) (h : Inv limit acc) (hs : acc.stop = false) :
+    Inv limit (addPtr limit acc ptr) := by
+  have hlt := h.2 hs
+  unfold addPtr Inv
+  simp only [List.length_append, List.length_cons, List.length_nil]
+  constructor
+  · omega
+  · intro hne
+    have : ¬ (acc.result.length + 1 = limit) := by simpa using hne
+    omega
+
+theorem drain_inv (limit : Nat) : ∀ (fuel : Nat) (acc : GenAcc) (ptr : Ptr),
+    Inv limit acc → acc.stop = false → Inv limit (drainSkipped limit fuel acc ptr)
+  | 0, acc, _, h, _ => h
+  | fuel+1, acc, ptr, h, hs => by
+    unfold drainSkipped
+    split
+    · simp only
+      split
+      · exact addPtr_inv limit acc ptr h hs
+      · rename_i hns
+        exact drain_inv limit fuel _ _ (addPtr_inv limit acc ptr h hs) (by simpa using hns)
+    · exact h
+
+theorem genStep_inv (limit : Nat) (acc : GenAcc) (k : Int × String × Nat) (h : Inv limit acc) :
+    Inv limit (genStep limit acc k) := by
+  unfold genStep
+  split
+  · exact h
+  · rename_i hs
+    have hs' : acc.stop = false := by simpa using hs
+    split
+    · exact h
+    · simp only
+      split
+      · have h1 : Inv limit (addPtr limit { acc with pool := (getCommit acc.pool k.2.1).1 } (k.2.1, k.2.2)) :=
+          addPtr_inv limit _ _ h hs'
+        split
+        · exact h1
+        · rename_i hns
+          exact drain_inv limit _ _ _ h1 (by simpa using hns)
+      · exact ⟨h.1, h.2⟩
+
+theorem fold_inv (limit : Nat) (ks : List (Int × String × Nat)) (acc : GenAcc) (h : Inv limit acc) :
+    Inv limit (ks.foldl (genStep limit) acc) := by
+  induction ks generalizing acc with
+  | nil => exact h
+  | cons k rest ih => exact ih _ (genStep_inv limit acc k h)
+
+/-- **size bound**: whenever the pool believes it has ready transactions (`nonBatch > 0`, which is
+the only case in which `GenerateBlock` / `ProcessTransactions` build a batch in untimed mode), a batch
+never holds more than the configured batch size -/
+theorem C18_batch_size_bound (p : Pool) (p' : Pool) (b : Batch) (hnb : 0 < p.nonBatch) (hbs : 0 < p.batchSize)
+    (h : generateBlock p = (p', some b)) : b.txs.length ≤ p.batchSize := by
+  unfold generateBlock at h
+  simp only at h
+  generalize hl : (if p.nonBatch > p.batchSize then p.batchSize else p.nonBatch) = limit at h
+  have hlim : 0 < limit ∧ limit ≤ p.batchSize := by
+    rw [← hl]; split <;> omega
+  have hinv := fold_inv limit (sortPrio p.priority) { pool := p } ⟨by simp, fun _ => by simp; omega⟩
+  split at h
+  · cases h
+  · cases h
+    simp only [List.length_map]
+    exact Nat.le_trans hinv.1 hlim.2
+
 end Bxh.Props.C18
